@@ -40,9 +40,14 @@ def buildable(opts):
 
 def parser(opts):
     from pysmi.parser.smi import parserFactory
-    key = tuple(sorted(opts))
+    key = tuple(opts)     # the order in which the options are named is part of the case: it must not matter
     if key not in _parsers:
-        _parsers[key] = parserFactory(**dict((o, True) for o in key))()
+        if len(_parsers) > 96:
+            _parsers.clear()
+        kw = {}
+        for o in key:
+            kw[o] = True
+        _parsers[key] = parserFactory(**kw)()
     p = _parsers[key]
     p.reset()
     return p
@@ -88,7 +93,11 @@ def lattice_cases(draw):
             if 'supportSmiV1Keywords' not in s_:
                 s_.append('supportSmiV1Keywords')
     toks, _ = mibgen.module_tokens(m)
-    return {'mod': m, 'small': sorted(small), 'big': sorted(big), 'seps': draw(mibgen.layouts(len(toks)))}
+    small, big = sorted(set(small)), sorted(set(big))
+    if draw(st.booleans()):
+        # a dialect is a set of options: naming them in another order is the same dialect
+        small, big = list(draw(st.permutations(small))), list(draw(st.permutations(big)))
+    return {'mod': m, 'small': small, 'big': big, 'seps': draw(mibgen.layouts(len(toks)))}
 
 
 def lattice_prop(case, rec):
@@ -110,9 +119,11 @@ def lattice_prop(case, rec):
         raise Violation('superset-changes-tree', 'options %r vs %r' % (case['small'], case['big']), case, {'text': text})
     if results[0] != exp:
         raise Violation('tree-differs-from-model', 'options %r' % (case['small'],), case, {'text': text})
-    rec.count('pair.%s' % ('proper' if case['small'] != case['big'] else 'equal'))
+    rec.count('pair.%s' % ('proper' if sorted(case['small']) != sorted(case['big']) else 'equal'))
+    if case['small'] != sorted(case['small']) or case['big'] != sorted(case['big']):
+        rec.count('pair.options-named-in-permuted-order')
     rec.count('dialect.' + m['dialect'])
-    if case['small'] != case['big'] and len(mibgen.kinds_in(m)) >= 4:
+    if sorted(case['small']) != sorted(case['big']) and len(mibgen.kinds_in(m)) >= 4:
         rec.mark_nontrivial(digest([text, case['small'], case['big']]))
     rec.sample({'text': text[:500], 'D': case['small'], "D'": case['big']})
 
@@ -244,8 +255,8 @@ def breakage_cases(draw):
     option = draw(st.sampled_from(OPTIONS))
     prof = SITE_PROFILES.get(option, PROFILE)
     mset = draw(mibgen.module_sets(prof))
-    extra = draw(st.lists(st.sampled_from(OPTIONS), max_size=2))
-    return {'mod': mset['modules'][0], 'option': option, 'extra': extra}
+    extra = draw(st.lists(st.sampled_from(OPTIONS), max_size=4, unique=True))
+    return {'mod': mset['modules'][0], 'option': option, 'extra': extra, 'first': draw(st.booleans())}
 
 
 def breakage_prop(case, rec):
@@ -256,7 +267,11 @@ def breakage_prop(case, rec):
     if m['dialect'] == 'v1':
         need.add('supportSmiV1Keywords')
     on = sorted(need)
-    on_extra = sorted(need | set(o for o in case['extra'] if buildable(need | set([o]))))
+    # the option among other relaxations, named before or after them
+    others = [o for o in case['extra'] if o not in need and buildable(need | set([o]))]
+    if 'supportIndex' in others and 'supportSmiV1Keywords' not in need | set(others):
+        others.remove('supportIndex')
+    on_extra = (sorted(need) + others) if case.get('first') else (others + sorted(need))
     off = sorted(need - set([option]))
     if not buildable(off):
         off = sorted(set(off) - set(['supportIndex']))
@@ -289,6 +304,84 @@ def breakage_prop(case, rec):
             rec.sample({'option': option, 'site': list(site), 'text': text[:500]})
 
 
+# ---------------------------------------------------------------------------
+# differential over texts OUTSIDE the generator's model: grammar-aware mutants, accepted or not
+
+
+TYPE_WORDS = ('INTEGER', 'Integer32', 'Unsigned32', 'Counter32', 'Gauge32', 'Counter64', 'TimeTicks', 'IpAddress', 'Opaque',
+              'STRING', 'IDENTIFIER', 'BITS', 'Counter', 'Gauge', 'NetworkAddress')
+GROUP_POOL = (['(', 'SIZE', '(', '0', '..', '8', ')', ')'], ['(', '0', '..', '7', ')'], ['(', '-1', '|', '3', '..', '4', ')'],
+              ['{', 'a', '(', '1', ')', ',', 'b', '(', '2', ')', '}'], ['(', 'SIZE', '(', '4', ')', ')'], ['{', 'x', '}'], [','],
+              ['DESCRIPTION', '"d"'], ['STATUS', 'current'], ['IMPLIED'])
+
+
+@st.composite
+def mutant_cases(draw):
+    mset = draw(mibgen.module_sets(PROFILE))
+    m = mset['modules'][0]
+    small, big = draw(option_sets())
+    if m['dialect'] == 'v1':
+        for s_ in (small, big):
+            if 'supportSmiV1Keywords' not in s_:
+                s_.append('supportSmiV1Keywords')
+    toks, _ = mibgen.module_tokens(m)
+    n = len(toks)
+    muts = []
+    for i in range(1 if draw(st.integers(0, 4)) else 2):
+        kind = draw(st.sampled_from(('group-after-type',) * 6 + ('group-anywhere', 'delete', 'duplicate', 'replace')))
+        if kind == 'group-after-type':
+            pos = [k for k, t in enumerate(toks) if isinstance(t, str) and (t in TYPE_WORDS or (t[:1].isupper() and '-' not in t and t.isalnum()))]
+            if not pos:
+                continue
+            muts.append(['group', draw(st.sampled_from(pos)) + 1, draw(st.integers(0, 4))])
+        elif kind == 'group-anywhere':
+            muts.append(['group', draw(st.integers(1, n - 1)), draw(st.integers(0, len(GROUP_POOL) - 1))])
+        elif kind == 'replace':
+            muts.append(['replace', draw(st.integers(0, n - 1)), draw(st.integers(0, n - 1))])
+        else:
+            muts.append([kind, draw(st.integers(0, n - 1))])
+    return {'mod': m, 'small': sorted(set(small)), 'big': sorted(set(big)), 'muts': muts}
+
+
+def mutant_prop(case, rec):
+    m = case['mod']
+    toks, _ = mibgen.module_tokens(m)
+    toks = list(toks)
+    for mu in sorted(case['muts'], key=lambda x: -x[1]):
+        if mu[0] == 'group':
+            toks[mu[1]:mu[1]] = GROUP_POOL[mu[2]]
+        elif mu[0] == 'delete':
+            del toks[mu[1]]
+        elif mu[0] == 'duplicate':
+            toks.insert(mu[1], toks[mu[1]])
+        elif mu[0] == 'replace':
+            toks[mu[1]] = toks[min(mu[2], len(toks) - 1)]
+    text, _ = mibgen.join_tokens(toks, mibgen.canonical_layout(toks))
+    res = []
+    for opts in (case['small'], case['big']):
+        try:
+            res.append(parse(opts, text))
+        except Exception as e:
+            raise Violation('foreign-exception', '%r under %r' % (e, opts), case, {'text': text})
+        rec.evaluated()
+    (s1, r1), (s2, r2) = res
+    rec.count('mutant.small-%s.big-%s' % (s1, s2))
+    if s1 == 'ok':
+        # words the larger dialect reserves excuse a difference
+        v1words = ('Counter', 'Gauge', 'NetworkAddress', 'ACCESS', 'MAX', 'TRAP-TYPE', 'ENTERPRISE', 'VARIABLES')
+        excused = ('supportSmiV1Keywords' in case['big'] and 'supportSmiV1Keywords' not in case['small']
+                   and any(w in toks for w in v1words))
+        if s2 != 'ok' and not excused:
+            raise Violation('superset-rejects-accepted-text', 'accepted under %r, rejected under %r: %s' % (
+                case['small'], case['big'], r2), case, {'text': text})
+        if s2 == 'ok' and r1 != r2 and not excused:
+            raise Violation('superset-changes-tree', 'mutated text: %r vs %r' % (case['small'], case['big']), case, {'text': text})
+        if sorted(case['small']) != sorted(case['big']):
+            rec.mark_nontrivial(digest([text, case['small'], case['big']]))
+            if len(rec.samples) < 14 and any(x[0] == 'group' for x in case['muts']):
+                rec.sample({'mutated-text-accepted-by-both': text[:400], 'D': case['small'], "D'": case['big']})
+
+
 def misc(ctx):
     def p(rec):
         from pysmi.parser.smi import parserFactory
@@ -305,6 +398,27 @@ def misc(ctx):
                 raise Violation('unknown-option-accepted', name, {'option': name})
             rec.evaluated()
             rec.mark_nontrivial(digest(['unknown', name]))
+        # several unknown names at once, alone or among known ones, named before or after them
+        known_sets = [(), ('commaAtTheEndOfImport',), ('supportSmiV1Keywords', 'supportIndex'), ('noCells', 'lowcaseIdentifier')]
+        pool = ('supportFoo', 'bogusA', 'bogusB', 'commaAtTheEndOfImports', 'x')
+        for r in (1, 2, 3):
+            for unk in itertools.combinations(pool, r):
+                for known in known_sets:
+                    for first in (True, False):
+                        kw = {}
+                        for o in (unk + known) if first else (known + unk):
+                            kw[o] = True
+                        case = {'options': list(kw)}
+                        try:
+                            parserFactory(**kw)
+                        except error.PySmiError:
+                            pass
+                        except Exception as e:
+                            raise Violation('unknown-option-foreign-exception', '%r: %r' % (list(kw), e), case)
+                        else:
+                            raise Violation('unknown-option-accepted', repr(list(kw)), case)
+                        rec.evaluated()
+                        rec.mark_nontrivial(digest(['unknown', list(kw)]))
         # every buildable subset can actually be built (384) - thorough only builds them all
         n = 0
         for r in range(len(OPTIONS) + 1):
@@ -350,6 +464,7 @@ def all_subsets(ctx):
 def run(ctx):
     ctx.search('lattice', lattice_cases, lattice_prop, ctx.pick(3000, 60000))
     ctx.search('breakage', breakage_cases, breakage_prop, ctx.pick(2400, 40000))
+    ctx.search('mutants', mutant_cases, mutant_prop, ctx.pick(6000, 200000))
     misc(ctx)
     if ctx.tier == 'thorough':
         all_subsets(ctx)
@@ -359,7 +474,9 @@ def replay(ctx, data):
     from vlib.core import Recorder
     rec = Recorder(ctx.findings)
     case = data['case']
-    if 'option' in case and 'mod' in case:
+    if 'muts' in case:
+        mutant_prop(case, rec)
+    elif 'option' in case and 'mod' in case:
         breakage_prop(case, rec)
     elif 'mod' in case:
         lattice_prop(case, rec)
